@@ -133,6 +133,15 @@ class Side:
 
 
 def clone_impl(impl, how):
+    # agents that hold collections of their space (a home range, the space's all_cells): the copy must give the copied agent
+    # collections over the COPY's cells that see the copy's occupants (such a collection is restored while its cells are rebuilt)
+    for a in impl.agents:
+        cell = getattr(a, "cell", None)
+        if cell is not None and not hasattr(a, "home"):
+            try:
+                a.home = cell.neighborhood if getattr(a, "_vidx", 0) % 2 == 0 else impl.space.all_cells
+            except Exception:
+                pass
     bundle = (impl.model, impl.space, impl.agents, impl.rng)
     if how == "deepcopy":
         model, space, agents, rng = copy.deepcopy(bundle)
@@ -170,6 +179,20 @@ def identity_problems(o, c):
             bad.append(f"copied agent {a._vidx} points to a cell that is not one of the copy's cells (coordinate {cell.coordinate})")
         elif cell is not None and a not in cell.agents:
             bad.append(f"copied agent {a._vidx} is not listed by the cell it reports")
+    for a in c.impl.agents:
+        home = getattr(a, "home", None)
+        if home is None or a not in live:
+            continue
+        try:
+            cells = list(home.cells)
+            if any(id(x) not in c.impl.name for x in cells):
+                bad.append(f"a collection held by copied agent {a._vidx} contains a cell that is not one of the copy's cells")
+            seen = sorted(x._vidx for x in home.agents)
+            want = sorted(x._vidx for cl in cells for x in cl.agents)
+            if seen != want:
+                bad.append(f"a collection held by copied agent {a._vidx} shows agents {seen}, its cells hold {want}")
+        except Exception as e:  # noqa: BLE001
+            bad.append(f"a collection held by copied agent {a._vidx} is unusable ({type(e).__name__}: {e})")
     for cell in sc_.all_cells:
         for a in cell.agents:
             if a not in c.impl.agents:
